@@ -712,8 +712,11 @@ class Network:
         try:
             async with atimeout(timeout):
                 _, response = await future
-        except TimeoutError as exc:
-            future.set_exception(exc)
+        except TimeoutError:
+            # The future was cancelled by the timeout (awaiting it directly
+            # propagates the cancellation), this removes it from the expected
+            # responses. Make sure it is cancelled in any case
+            future.cancel()
             raise
 
         return response
@@ -752,8 +755,11 @@ class Network:
         try:
             async with atimeout(timeout):
                 _, response = await future
-        except TimeoutError as exc:
-            future.set_exception(exc)
+        except TimeoutError:
+            # The future was cancelled by the timeout (awaiting it directly
+            # propagates the cancellation), this removes it from the expected
+            # responses. Make sure it is cancelled in any case
+            future.cancel()
             raise
 
         return response
